@@ -31,6 +31,11 @@ var checkSatCmd = "(check-sat)"
 var totalSolverNanos int64
 var totalQueries int64
 
+// solverLogic is sent as (set-logic ...) when non-empty. QF_BV makes z3 answer push/pop queries with
+// its incremental SAT-based solver (good for the large regex tables); the default core is much
+// faster on the small formulas of the data-structure and scheduling harnesses.
+var solverLogic = ""
+
 func NewSolver(bin string) (*Solver, error) {
 	var cmd *exec.Cmd
 	switch bin {
@@ -55,7 +60,7 @@ func NewSolver(bin string) (*Solver, error) {
 	if p := os.Getenv("SYMGO_SMTLOG"); p != "" {
 		s.log, _ = os.Create(fmt.Sprintf("%s.%d.smt2", p, cmd.Process.Pid))
 	}
-	s.Send("(set-option :produce-models true)\n(set-logic QF_BV)\n")
+	s.Send("(set-option :produce-models true)\n" + logicCmd())
 	return s, nil
 }
 
@@ -232,7 +237,14 @@ func (s *Solver) Close() {
 // oneShot runs a standalone query text (full script without check-sat) in a fresh solver context
 // of this process: (reset) + text + (check-sat).
 func (s *Solver) OneShot(text string, timeoutMs int) (SatResult, string) {
-	s.Send("(reset)\n(set-option :produce-models true)\n(set-logic QF_BV)\n(push 1)\n")
+	s.Send("(reset)\n(set-option :produce-models true)\n" + logicCmd() + "(push 1)\n")
 	s.Send(text)
 	return s.checkOnce(checkSatCmd, timeoutMs)
+}
+
+func logicCmd() string {
+	if solverLogic == "" {
+		return ""
+	}
+	return "(set-logic " + solverLogic + ")\n"
 }
